@@ -85,7 +85,15 @@ def recording_lemma(opcode=None, native=None):
             def cex(m):
                 # the variable's previous content and the stored value as the model has them; the same little
                 # program is run with recording off and on, the visible results must agree
-                slots = [v[1] for v in pa.heap.slots.values() if getattr(v[1], "origin", None)]
+                slots = []
+                for o_ in list(outs_a) + list(outs_b):
+                    try:
+                        hp = L.field(final_state(L, o_), "State", "heap")
+                        slots = [v[1] for v in (hp.slots or {}).values() if getattr(v[1], "origin", None)]
+                    except Exception:
+                        slots = []
+                    if slots:
+                        break
                 old = cell_push_line(m, slots[0].origin) if slots else "push int 5"
                 new = cell_push_line(m, "a")
                 prog = lambda v: [old, "eval var " + v, new, "eval ! " + v, "eval " + v, "stack", "eval depth collect drop"]
